@@ -278,7 +278,8 @@ def check(ctx):
     n = core.adopt(ctx, c06, lambda o: o["rule"] == "C06.b", "C18.d")
     ctx.floor("C18.d", n, 25, "shared revoke-exactness obligations")
     # a revoke whose token names a dead entity still revokes every other entry of the token (shared with C06.c)
-    n = core.adopt(ctx, c06, lambda o: o["rule"] == "C06.c" and "visits-every-token-entry" in o["key"], "C18.d")
+    n = core.adopt(ctx, c06, lambda o: (o["rule"] == "C06.c" and "visits-every-token-entry" in o["key"]) or
+                   (o["rule"] == "C06.a" and ("token-loop-has-no-early-exit" in o["key"] or "every-token-entry-dispatched" in o["key"])), "C18.d")
     # removing triggers that name a despawned entity leaves the other entities of the bundle handled: the per-entity cleanup of a
     # world reactor's local data skips a dead entity instead of abandoning the rest (shared with C16.c)
     import c16 as _c16
